@@ -227,6 +227,28 @@ class GhostPos(object):
         if k == "assign":
             l = X.strip(n["ch"][0])
             op = n.get("op")
+            rc = X.strip(n["ch"][1])
+            if l.get("k") == "ref" and l.get("d") in self.intvars and rc is not None and rc.get("k") == "cond" and op in ("=", "+=", "-="):
+                # x op= (c ? a : b): the two outcomes separately, then joined (MIN / MAX / clamp idioms)
+                outs = []
+                for truth, arm in ((True, rc["ch"][1]), (False, rc["ch"][2])):
+                    st = self.refine(cons, rc["ch"][0], truth)
+                    if st is None:
+                        continue
+                    val = self.lin(arm)
+                    sym = "v%d" % l["d"]
+                    if op == "=":
+                        outs.append(self.assign_sym(st, sym, val))
+                    elif val is not None:
+                        outs.append(self.assign_sym(st, sym, Lin.sym(sym) + val if op == "+=" else Lin.sym(sym) - val))
+                    else:
+                        outs.append(self.assign_sym(st, sym, None))
+                if not outs:
+                    return cons
+                res = outs[0]
+                for o in outs[1:]:
+                    res = self.join(res, o, False)
+                return res
             if l.get("k") == "ref" and l.get("d") in self.intvars:
                 sym = "v%d" % l["d"]
                 r = self.lin(n["ch"][1])
